@@ -78,4 +78,8 @@ RatClose(r, f, Kc, slack) == LET lhs == SAbs(SSub(SMulInt(f, r[2]), SFromInt(r[1
                                  ref == SMax(SAbs(SFromInt(r[1])), SFromInt(r[2]))          \* max(|n|, d) = d * max(1,|r|)
                                  tol == [s |-> 1, m |-> UAdd(UDrop(UMul(ref.m, Kc), 3), UFromInt(slack * r[2]))]
                              IN SLe(lhs, tol)
+\* one-sided versions:  r <= f (+tol)   and   f <= r (+tol)
+RatTol(r, Kc, slack) == LET ref == SMax(SAbs(SFromInt(r[1])), SFromInt(r[2])) IN [s |-> 1, m |-> UAdd(UDrop(UMul(ref.m, Kc), 3), UFromInt(slack * r[2]))]
+RatLeFix(r, f, Kc, slack) == SLe(SSub(SFromInt(r[1]), SMulInt(f, r[2])), RatTol(r, Kc, slack))
+FixLeRat(f, r, Kc, slack) == SLe(SSub(SMulInt(f, r[2]), SFromInt(r[1])), RatTol(r, Kc, slack))
 ====
